@@ -191,7 +191,7 @@ def run(ctx):
                 if api == 'replace_var_with_this' and cls == 'TypeError' and _bare_alias(abs_e, args[1]):
                     ctx.skip('bare-alias-at-primitive-type')
                     continue
-                if api == 'simplify' and _undefined_everywhere(cond, envs):
+                if api == 'simplify' and S.undefined_everywhere(cond, envs):
                     ctx.skip('input-undefined-on-every-valuation')
                     continue
                 w.update(error=cls, message=str(exc)[:200])
